@@ -231,6 +231,11 @@ Section Dispatch.
   Variable face_cleanup : N -> ribT -> fibT -> ribT * fibT.
 
   Variable allow_localhop : bool.           (* core config Mgmt.AllowLocalhop -> enableLocalhopManagement *)
+  (* external code (codec): does the encoded dataset fit one segment (makeStatusDataset: len(dataset) <= 8000)?
+     If not, nothing is sent (the dataset version is consumed all the same). *)
+  Variable ds_fits : dataset -> bool.
+  Definition publish (nm : dsname) (version : N) (d : dataset) : resp :=
+    if ds_fits d then RData nm version d else RNone.
 
   Definition ctl (st : state) (vs : vers) (c : cmd) (code : N) (echo : cargs) : outcome :=
     Ok st vs (RCtl code echo (c_inface c)).
@@ -308,7 +313,7 @@ Section Dispatch.
 
   Definition rib_list (st : state) (vs : vers) (c : cmd) : outcome :=
     if negb (is_dataset_request c) then Ok st vs RNone
-    else Ok st (bump_rib vs) (RData (NRibList (firstn plen (c_name c))) (v_rib vs) (DRib (s_rib st))).
+    else Ok st (bump_rib vs) (publish (NRibList (firstn plen (c_name c))) (v_rib vs) (DRib (s_rib st))).
 
   Definition verb_of (c : cmd) : option comp := nth_error (c_name c) (plen + 1).
 
@@ -354,7 +359,7 @@ Section Dispatch.
 
   Definition fib_list (st : state) (vs : vers) (c : cmd) : outcome :=
     if negb (is_dataset_request c) then Ok st vs RNone
-    else Ok st (bump_fib vs) (RData NFibList (v_fib vs) (DFib (s_fib st))).
+    else Ok st (bump_fib vs) (publish NFibList (v_fib vs) (DFib (s_fib st))).
 
   Definition fib_module (st : state) (vs : vers) (c : cmd) : outcome :=
     if k_FIBModule_local_only && negb (is_prefix local_prefix (c_name c)) then Ok st vs RNone
@@ -447,7 +452,7 @@ Section Dispatch.
 
   Definition strat_list (st : state) (vs : vers) (c : cmd) : outcome :=
     if negb (is_dataset_request c) then Ok st vs RNone
-    else Ok st (bump_strat vs) (RData NStratList (v_strat vs) (DStrat (s_strat st))).
+    else Ok st (bump_strat vs) (publish NStratList (v_strat vs) (DStrat (s_strat st))).
 
   Definition strat_module (st : state) (vs : vers) (c : cmd) : outcome :=
     if k_StrategyChoiceModule_local_only && negb (is_prefix local_prefix (c_name c)) then Ok st vs RNone
@@ -479,7 +484,7 @@ Section Dispatch.
   Definition cs_info (st : state) (vs : vers) (c : cmd) : outcome :=
     if negb (is_dataset_request c) then Ok st vs RNone
     else Ok st (bump_cs vs)
-            (RData NCsInfo (v_cs vs) (DCs (to_u64 (s_cs st)) (k_cs_flag_enable_admit + k_cs_flag_enable_serve) 0)).
+            (publish NCsInfo (v_cs vs) (DCs (to_u64 (s_cs st)) (k_cs_flag_enable_admit + k_cs_flag_enable_serve) 0)).
 
   Definition cs_module (st : state) (vs : vers) (c : cmd) : outcome :=
     if k_ContentStoreModule_local_only && negb (is_prefix local_prefix (c_name c)) then Ok st vs RNone
@@ -501,7 +506,7 @@ Section Dispatch.
     | Some v =>
       if comp_is v [103;101;110;101;114;97;108] (* general *) then
         if negb (is_dataset_request c) then Ok st vs RNone
-        else Ok st (bump_status vs) (RData NGeneral (v_status vs) (DGeneral (N.of_nat (length (s_fib st)))))
+        else Ok st (bump_status vs) (publish NGeneral (v_status vs) (DGeneral (N.of_nat (length (s_fib st)))))
       else ctl st vs c ForwarderStatusModule_handleIncomingInterest_st_Unknown_verb no_args
     end.
 
@@ -616,7 +621,7 @@ Section Dispatch.
 
   Definition face_list (st : state) (vs : vers) (c : cmd) : outcome :=
     if negb (is_dataset_request c) then Ok st vs RNone
-    else Ok st (bump_face vs) (RData NFacesList (v_face vs) (DFaces (map face_stat (s_faces st)))).
+    else Ok st (bump_face vs) (publish NFacesList (v_face vs) (DFaces (map face_stat (s_faces st)))).
 
   Definition opt_match (o : option N) (v : N) : bool := match o with Some x => x =? v | None => true end.
   Definition face_matches (q : qfilter) (f : faceT) : bool :=
@@ -631,7 +636,7 @@ Section Dispatch.
          | QErr => Ok st vs RNone
          | QNil => Ok st vs RNone                          (* filterV.Val == nil *)
          | QOk q => Ok st (bump_face vs)
-                       (RData (NQuery (c_name c)) (v_face vs) (DFaces (map face_stat (filter (face_matches q) (s_faces st)))))
+                       (publish (NQuery (c_name c)) (v_face vs) (DFaces (map face_stat (filter (face_matches q) (s_faces st)))))
          end.
 
   Definition face_module (st : state) (vs : vers) (c : cmd) : outcome :=
